@@ -9,22 +9,21 @@ namespace C15
 section
 variable {σ κ : Type} [DecidableEq σ] [DecidableEq κ] (c : Cfg σ κ)
 
-/-- A state predicate preserved by every basic operation (genesis only for non-negative
-grants) is preserved by `step`, whatever the result (ok, error or panic). -/
+/-- A state predicate preserved by every basic operation is preserved by `step`, whatever the
+result (ok, error or panic). -/
 theorem step_inv (I : State σ κ → Prop)
     (hT : ∀ s f t amt, I s → I (transfer c s f t amt).1)
     (hD : ∀ s e amt, I s → I (depositBalance c s e amt).1)
     (hB : ∀ s a amt, I s → I (burn c s a amt).1)
-    (hG : ∀ s a amt, 0 ≤ amt → I s → I (genesis c s a amt).1)
+    (hG : ∀ s a amt, I s → I (genesis c s a amt).1)
     (hED : ∀ s a e amt, I s → I (execDeposit c s a e amt).1)
     (hEW : ∀ s e a amt, I s → I (execWithdraw c s e a amt).1)
     (hEF : ∀ s a e amt, I s → I (execFrozen c s a e amt).1)
     (hEA : ∀ s a e amt, I s → I (execActive c s a e amt).1)
     (hET : ∀ s f t e amt, I s → I (execTransfer c s f t e amt).1)
     (hETF : ∀ s f t e amt, I s → I (execTransferFrozen c s f t e amt).1)
-    (hDF : ∀ s a e amt, checkAmount amt = true → I s →
-      I (saveSub c s e { loadSub c s a e with frz := wrap ((loadSub c s a e).frz + amt) }))
-    (s : State σ κ) (op : Op σ) (hop : GenesisOK op) (hs : I s) : I (step c s op).1 := by
+    (hDF : ∀ s a e amt, I s → I (depositFrozen2 c s a e amt).1)
+    (s : State σ κ) (op : Op σ) (hs : I s) : I (step c s op).1 := by
   have hI : ∀ s e amt, I s → I (execIssue c s e amt).1 := by
     intro s e amt h
     unfold execIssue
@@ -36,9 +35,9 @@ theorem step_inv (I : State σ κ → Prop)
   | checkTransfer f t amt => exact hs
   | mint a amt => exact hD s a amt hs
   | burn a amt => exact hB s a amt hs
-  | genesis a amt => exact hG s a amt hop hs
+  | genesis a amt => exact hG s a amt hs
   | genesisExec a amt e =>
-    have h1 := hG s e amt hop hs
+    have h1 := hG s e amt hs
     simp only [step, genesisExec]
     split
     · exact h1
@@ -71,83 +70,63 @@ theorem step_inv (I : State σ κ → Prop)
     simp only [step, execDepositFrozen]
     split
     · exact hs
-    · have h1 := hI s e amt hs
-      split
-      · exact h1
-      · next hne hok =>
-        have hca : checkAmount amt = true := by
-          rcases execIssue_cases c s e amt with hf | ⟨nb, hca, _, _⟩
-          · exfalso
-            have : (execIssue c s e amt).2 = .ok := by simpa using hok
-            have h2 := hf.2
-            rw [this] at h2; simp [Res.isErr] at h2
-          · exact hca
-        exact hDF _ a e amt hca h1
+    · split
+      · exact hs
+      · have h1 := hI s e amt hs
+        split
+        · exact h1
+        · exact hDF _ a e amt h1
   | execIssue e amt => exact hI s e amt hs
   | execDeposit a e amt => exact hED s a e amt hs
   | execWithdraw e a amt => exact hEW s e a amt hs
 
 /-- every basic operation either leaves the state alone or performs saves; `WF` survives saves. -/
 theorem wf_step {s : State σ κ} (op : Op σ) (h : WF c s) : WF c (step c s op).1 := by
-  -- `WF` needs no hypothesis on genesis amounts: prove the basic facts directly
-  have hG : ∀ s a amt, WF c s → WF c (genesis c s a amt).1 := by
-    intro s a amt h
-    rcases genesis_cases c s a amt with hf | ⟨nb, _, he⟩
-    · rw [hf.1]; exact h
-    · rw [he]; exact wf_saveMain c h _
-  have hT : ∀ s f t amt, WF c s → WF c (transfer c s f t amt).1 := by
-    intro s f t amt h
+  refine step_inv c (WF c) ?_ ?_ ?_ ?_ ?_ ?_ ?_ ?_ ?_ ?_ ?_ s op h
+  · intro s f t amt h
     rcases transfer_cases c s f t amt with hf | ⟨nb, _, _, _, _, he⟩
     · rw [hf.1]; exact h
     · rw [he]; exact wf_saveMain c (wf_saveMain c h _) _
-  have hED : ∀ s a e amt, WF c s → WF c (execDeposit c s a e amt).1 := by
-    intro s a e amt h
-    rcases execDeposit_cases c s a e amt with hf | ⟨_, _, he⟩
+  · intro s e amt h
+    rcases depositBalance_cases c s e amt with hf | ⟨nb, _, _, he⟩
+    · rw [hf.1]; exact h
+    · rw [he]; exact wf_saveMain c h _
+  · intro s a amt h
+    rcases burn_cases c s a amt with hf | ⟨_, _, he⟩
+    · rw [hf.1]; exact h
+    · rw [he]; exact wf_saveMain c h _
+  · intro s a amt h
+    rcases genesis_cases c s a amt with hf | ⟨nb, _, he⟩
+    · rw [hf.1]; exact h
+    · rw [he]; exact wf_saveMain c h _
+  · intro s a e amt h
+    rcases execDeposit_cases c s a e amt with hf | ⟨_, _, _, _, he⟩
     · rw [hf.1]; exact h
     · rw [he]; exact wf_saveSub c h _ _
-  have hEW : ∀ s e a amt, WF c s → WF c (execWithdraw c s e a amt).1 := by
-    intro s e a amt h
+  · intro s e a amt h
     rcases execWithdraw_cases c s e a amt with hf | ⟨_, _, _, he⟩
     · rw [hf.1]; exact h
     · rw [he]; exact wf_saveSub c h _ _
-  cases op with
-  | genesis a amt => exact hG s a amt h
-  | genesisExec a amt e =>
-    have h1 := hG s e amt h
-    simp only [step, genesisExec]
-    split
-    · exact h1
-    · split
-      · exact h1
-      · exact hED _ a e amt h1
-  | _ =>
-    refine step_inv c (WF c) hT ?_ ?_ (fun s a amt _ => hG s a amt) hED hEW ?_ ?_ ?_ ?_ ?_ s _ trivial h
-    · intro s e amt h
-      rcases depositBalance_cases c s e amt with hf | ⟨nb, _, _, he⟩
-      · rw [hf.1]; exact h
-      · rw [he]; exact wf_saveMain c h _
-    · intro s a amt h
-      rcases burn_cases c s a amt with hf | ⟨_, _, he⟩
-      · rw [hf.1]; exact h
-      · rw [he]; exact wf_saveMain c h _
-    · intro s a e amt h
-      rcases execFrozen_cases c s a e amt with hf | ⟨_, _, _, he⟩
-      · rw [hf.1]; exact h
-      · rw [he]; exact wf_saveSub c h _ _
-    · intro s a e amt h
-      rcases execActive_cases c s a e amt with hf | ⟨_, _, _, he⟩
-      · rw [hf.1]; exact h
-      · rw [he]; exact wf_saveSub c h _ _
-    · intro s f t e amt h
-      rcases execTransfer_cases c s f t e amt with hf | ⟨_, _, _, _, he⟩
-      · rw [hf.1]; exact h
-      · rw [he]; exact wf_saveSub c (wf_saveSub c h _ _) _ _
-    · intro s f t e amt h
-      rcases execTransferFrozen_cases c s f t e amt with hf | ⟨_, _, _, _, he⟩
-      · rw [hf.1]; exact h
-      · rw [he]; exact wf_saveSub c (wf_saveSub c h _ _) _ _
-    · intro s a e amt _ h
-      exact wf_saveSub c h _ _
+  · intro s a e amt h
+    rcases execFrozen_cases c s a e amt with hf | ⟨_, _, _, _, _, he⟩
+    · rw [hf.1]; exact h
+    · rw [he]; exact wf_saveSub c h _ _
+  · intro s a e amt h
+    rcases execActive_cases c s a e amt with hf | ⟨_, _, _, _, _, he⟩
+    · rw [hf.1]; exact h
+    · rw [he]; exact wf_saveSub c h _ _
+  · intro s f t e amt h
+    rcases execTransfer_cases c s f t e amt with hf | ⟨_, _, _, _, _, _, he⟩
+    · rw [hf.1]; exact h
+    · rw [he]; exact wf_saveSub c (wf_saveSub c h _ _) _ _
+  · intro s f t e amt h
+    rcases execTransferFrozen_cases c s f t e amt with hf | ⟨_, _, _, _, _, _, he⟩
+    · rw [hf.1]; exact h
+    · rw [he]; exact wf_saveSub c (wf_saveSub c h _ _) _ _
+  · intro s a e amt h
+    rcases depositFrozen2_cases c s a e amt with hf | ⟨_, _, he⟩
+    · rw [hf.1]; exact h
+    · rw [he]; exact wf_saveSub c h _ _
 
 theorem wf_run (ops : List (Op σ)) {s : State σ κ} (h : WF c s) : WF c (run c s ops) := by
   induction ops generalizing s with
@@ -200,31 +179,31 @@ theorem basic_ok_or_failed_burn (s : State σ κ) (a : σ) (amt : Int) :
 
 theorem basic_ok_or_failed_execDeposit (s : State σ κ) (a e : σ) (amt : Int) :
     Failed (execDeposit c s a e amt) s ∨ (execDeposit c s a e amt).2 = .ok := by
-  rcases execDeposit_cases c s a e amt with h | ⟨_, _, he⟩
+  rcases execDeposit_cases c s a e amt with h | ⟨_, _, _, _, he⟩
   · exact Or.inl h
   · right; rw [he]
 
 theorem basic_ok_or_failed_execFrozen (s : State σ κ) (a e : σ) (amt : Int) :
     Failed (execFrozen c s a e amt) s ∨ (execFrozen c s a e amt).2 = .ok := by
-  rcases execFrozen_cases c s a e amt with h | ⟨_, _, _, he⟩
+  rcases execFrozen_cases c s a e amt with h | ⟨_, _, _, _, _, he⟩
   · exact Or.inl h
   · right; rw [he]
 
 theorem basic_ok_or_failed_execActive (s : State σ κ) (a e : σ) (amt : Int) :
     Failed (execActive c s a e amt) s ∨ (execActive c s a e amt).2 = .ok := by
-  rcases execActive_cases c s a e amt with h | ⟨_, _, _, he⟩
+  rcases execActive_cases c s a e amt with h | ⟨_, _, _, _, _, he⟩
   · exact Or.inl h
   · right; rw [he]
 
 theorem basic_ok_or_failed_execTransfer (s : State σ κ) (f t e : σ) (amt : Int) :
     Failed (execTransfer c s f t e amt) s ∨ (execTransfer c s f t e amt).2 = .ok := by
-  rcases execTransfer_cases c s f t e amt with h | ⟨_, _, _, _, he⟩
+  rcases execTransfer_cases c s f t e amt with h | ⟨_, _, _, _, _, _, he⟩
   · exact Or.inl h
   · right; rw [he]
 
 theorem basic_ok_or_failed_execTransferFrozen (s : State σ κ) (f t e : σ) (amt : Int) :
     Failed (execTransferFrozen c s f t e amt) s ∨ (execTransferFrozen c s f t e amt).2 = .ok := by
-  rcases execTransferFrozen_cases c s f t e amt with h | ⟨_, _, _, _, he⟩
+  rcases execTransferFrozen_cases c s f t e amt with h | ⟨_, _, _, _, _, _, he⟩
   · exact Or.inl h
   · right; rw [he]
 
@@ -232,7 +211,7 @@ theorem basic_ok_or_failed_execTransferFrozen (s : State σ κ) (f t e : σ) (am
 
 theorem main_execDeposit (s : State σ κ) (a e : σ) (amt : Int) :
     (execDeposit c s a e amt).1.main = s.main := by
-  rcases execDeposit_cases c s a e amt with h | ⟨_, _, he⟩
+  rcases execDeposit_cases c s a e amt with h | ⟨_, _, _, _, he⟩
   · rw [h.1]
   · rw [he]; rfl
 
@@ -244,25 +223,37 @@ theorem main_execWithdraw (s : State σ κ) (e a : σ) (amt : Int) :
 
 theorem main_execFrozen (s : State σ κ) (a e : σ) (amt : Int) :
     (execFrozen c s a e amt).1.main = s.main := by
-  rcases execFrozen_cases c s a e amt with h | ⟨_, _, _, he⟩
+  rcases execFrozen_cases c s a e amt with h | ⟨_, _, _, _, _, he⟩
   · rw [h.1]
   · rw [he]; rfl
 
 theorem main_execActive (s : State σ κ) (a e : σ) (amt : Int) :
     (execActive c s a e amt).1.main = s.main := by
-  rcases execActive_cases c s a e amt with h | ⟨_, _, _, he⟩
+  rcases execActive_cases c s a e amt with h | ⟨_, _, _, _, _, he⟩
   · rw [h.1]
   · rw [he]; rfl
 
 theorem main_execTransfer (s : State σ κ) (f t e : σ) (amt : Int) :
     (execTransfer c s f t e amt).1.main = s.main := by
-  rcases execTransfer_cases c s f t e amt with h | ⟨_, _, _, _, he⟩
+  rcases execTransfer_cases c s f t e amt with h | ⟨_, _, _, _, _, _, he⟩
   · rw [h.1]
   · rw [he]; rfl
 
 theorem main_execTransferFrozen (s : State σ κ) (f t e : σ) (amt : Int) :
     (execTransferFrozen c s f t e amt).1.main = s.main := by
-  rcases execTransferFrozen_cases c s f t e amt with h | ⟨_, _, _, _, he⟩
+  rcases execTransferFrozen_cases c s f t e amt with h | ⟨_, _, _, _, _, _, he⟩
+  · rw [h.1]
+  · rw [he]; rfl
+
+theorem basic_ok_or_failed_depositFrozen2 (s : State σ κ) (a e : σ) (amt : Int) :
+    Failed (depositFrozen2 c s a e amt) s ∨ (depositFrozen2 c s a e amt).2 = .ok := by
+  rcases depositFrozen2_cases c s a e amt with h | ⟨_, _, he⟩
+  · exact Or.inl h
+  · right; rw [he]
+
+theorem main_depositFrozen2 (s : State σ κ) (a e : σ) (amt : Int) :
+    (depositFrozen2 c s a e amt).1.main = s.main := by
+  rcases depositFrozen2_cases c s a e amt with h | ⟨_, _, he⟩
   · rw [h.1]
   · rw [he]; rfl
 
@@ -274,6 +265,21 @@ theorem checkTransfer_isErr_or_ok (s : State σ κ) (f : σ) (amt : Int) :
   · split
     · left; rfl
     · right; rfl
+
+/-- Inside `ExecDepositFrozen` the frozen addition cannot fail once the pre-check passed and the
+issue succeeded (valid amount, sub-ledger untouched by the issue). -/
+theorem depositFrozen2_ok_after_issue (s : State σ κ) (a e : σ) (amt : Int)
+    (hg : ¬ (checkAmount amt && (safeAdd (loadSub c s a e).frz amt).isNone) = true)
+    (h1 : (execIssue c s e amt).2 = .ok) :
+    (depositFrozen2 c (execIssue c s e amt).1 a e amt).2 = .ok := by
+  rcases execIssue_cases c s e amt with hf | ⟨nb, hca, _, hie⟩
+  · have h2 := hf.2; rw [h1] at h2; simp [Res.isErr] at h2
+  · have hsub : loadSub c (execIssue c s e amt).1 a e = loadSub c s a e := by rw [hie]; rfl
+    unfold depositFrozen2
+    rw [hsub]
+    cases h4 : safeAdd (loadSub c s a e).frz amt with
+    | none => exact absurd (by simp [hca, h4]) hg
+    | some nf => simp [h4]
 
 /-- An operation that returns an error leaves the store exactly as it was. -/
 theorem step_err_unchanged (s : State σ κ) (op : Op σ) (he : (step c s op).2.isErr = true) :
@@ -325,22 +331,22 @@ theorem step_err_unchanged (s : State σ κ) (op : Op σ) (he : (step c s op).2.
           rw [this] at he; simp [Res.isErr] at he
   | execFrozen a e amt =>
     refine failed_of_isErr ?_ he
-    rcases execFrozen_cases c s a e amt with h | ⟨_, _, _, h⟩
+    rcases execFrozen_cases c s a e amt with h | ⟨_, _, _, _, _, h⟩
     · exact Or.inl h
     · right; show (execFrozen c s a e amt).2 = .ok; rw [h]
   | execActive a e amt =>
     refine failed_of_isErr ?_ he
-    rcases execActive_cases c s a e amt with h | ⟨_, _, _, h⟩
+    rcases execActive_cases c s a e amt with h | ⟨_, _, _, _, _, h⟩
     · exact Or.inl h
     · right; show (execActive c s a e amt).2 = .ok; rw [h]
   | execTransfer f t e amt =>
     refine failed_of_isErr ?_ he
-    rcases execTransfer_cases c s f t e amt with h | ⟨_, _, _, _, h⟩
+    rcases execTransfer_cases c s f t e amt with h | ⟨_, _, _, _, _, _, h⟩
     · exact Or.inl h
     · right; show (execTransfer c s f t e amt).2 = .ok; rw [h]
   | execTransferFrozen f t e amt =>
     refine failed_of_isErr ?_ he
-    rcases execTransferFrozen_cases c s f t e amt with h | ⟨_, _, _, _, h⟩
+    rcases execTransferFrozen_cases c s f t e amt with h | ⟨_, _, _, _, _, _, h⟩
     · exact Or.inl h
     · right; show (execTransferFrozen c s f t e amt).2 = .ok; rw [h]
   | execDepositFrozen a e amt =>
@@ -350,12 +356,34 @@ theorem step_err_unchanged (s : State σ κ) (op : Op σ) (he : (step c s op).2.
     · next h0 =>
       rw [if_neg h0]
       split at he
-      · next h1 => rw [if_pos h1]; exact failed_of_isErr (basic_ok_or_failed_execIssue c s e amt) he
-      · simp [Res.isErr] at he
+      · next hg => rw [if_pos hg]
+      · next hg =>
+        rw [if_neg hg]
+        split at he
+        · next h1 => rw [if_pos h1]; exact failed_of_isErr (basic_ok_or_failed_execIssue c s e amt) he
+        · next h1 =>
+          rw [if_neg h1]
+          -- the issue succeeded: the amount is valid, the sub-ledger untouched, so the frozen
+          -- addition checked before the issue succeeds again
+          exfalso
+          rcases execIssue_cases c s e amt with hf | ⟨nb, hca, _, hie⟩
+          · have : (execIssue c s e amt).2 = .ok := by simpa using h1
+            have h2 := hf.2; rw [this] at h2; simp [Res.isErr] at h2
+          · have hsub : loadSub c (execIssue c s e amt).1 a e = loadSub c s a e := by rw [hie]; rfl
+            rcases depositFrozen2_cases c (execIssue c s e amt).1 a e amt with hf2 | ⟨nf, _, he2⟩
+            · have hnone : safeAdd (loadSub c s a e).frz amt = none := by
+                have := hf2.2
+                unfold depositFrozen2 at this
+                rw [hsub] at this
+                cases h4 : safeAdd (loadSub c s a e).frz amt with
+                | none => rfl
+                | some nf => simp [h4, Res.isErr] at this
+              exact hg (by simp [hca, hnone])
+            · rw [he2] at he; simp [Res.isErr] at he
   | execIssue e amt => exact failed_of_isErr (basic_ok_or_failed_execIssue c s e amt) he
   | execDeposit a e amt =>
     refine failed_of_isErr ?_ he
-    rcases execDeposit_cases c s a e amt with h | ⟨_, _, h⟩
+    rcases execDeposit_cases c s a e amt with h | ⟨_, _, _, _, h⟩
     · exact Or.inl h
     · right; show (execDeposit c s a e amt).2 = .ok; rw [h]
   | execWithdraw e a amt => exact failed_of_isErr (basic_ok_or_failed_execWithdraw c s e a amt) he
